@@ -145,6 +145,10 @@ def run(ctx):
     from props import helpers
     helpers.util_products(ctx, py, "C04")
 
+    # frame of the modules under contract (no state kept between calls, arguments left alone): same analysis as C19
+    from props import C19 as _C19
+    ctx.guard(_C19.frame_obligations, ctx, py, "C04", {'util', 'error_model', 'earth', 'transform'})
+
 
 _REAL_CONSTS = {}
 
